@@ -108,11 +108,13 @@ CHECKS["C03"] = ("proof",
     "a symbolic fee rate, for every in-python strategy: requested output unchanged; inputs are distinct offered outputs, all reserved by "
     "this build; inputs = outputs + fee with size_fee <= fee <= size_fee + cost of change + DUST; at most one change output above dust to "
     "the change address; InsufficientFundsError only when positive-value outputs cannot cover; nothing reserved after failure; database "
-    "touched only under the reservation lock. Selector soundness/completeness per strategy. Bounded (labelled): real Ledger + sqlite "
-    "Database + Account for all 7 strategies incl. the sqlite chooser (420 builds, a 1281-build fee-boundary sweep, 126 concurrent cases).",
+    "touched only under the reservation lock. Selector soundness/completeness per strategy. The sqlite chooser's real body "
+    "(get_and_reserve_spendable_utxos) over a 1-2 row table model: flags exactly what it returns, covers the target with outputs worth "
+    "spending, returns nothing only when they cannot cover (this proof found defect F7c). Bounded (labelled): real Ledger + sqlite "
+    "Database + Account for all 7 strategies (420 builds, a 1281-build fee-boundary sweep, dust/small-deficit cases, 126 concurrent cases).",
     "Account/database behaviour is a call-site contract (get_utxos returns unreserved outputs; reserve/release flip the flag), "
     "cross-checked on real sqlite by the bounded cases. Symbolic part limited to 2 spendable outputs and one requested output; the sqlite "
-    "chooser is bounded only; signing is off (C04).",
+    "chooser's SELECT/UPDATE are a table model (trusted, real sqlite in the bounded cases); signing is off (C04).",
     "symbolic execution of the real AST (asyncio lock/scheduler model), VCs by z3/cvc5; bounded run-time contracts on the real ledger", "3 C03")
 CHECKS["C14"] = ("proof",
     "Rely/guarantee over the reservation flag: the deductive C03 funding proofs (registered under C14) establish for the real "
@@ -122,7 +124,7 @@ CHECKS["C14"] = ("proof",
     "(labelled): 2..8 concurrent builds on the real Ledger + sqlite Database for all 7 strategies, confirmed/mixed/unconfirmed UTXO sets, "
     "failure at signing, release (126 cases).",
     "Interleavings are covered by the lock argument, not enumerated; asyncio.Lock mutual exclusion and the atomicity of one SQL "
-    "transaction are trusted; the sqlite chooser is bounded only; cancellation and crashes are outside.",
+    "transaction are trusted; the sqlite chooser is proved over a 2-row table model; cancellation and crashes are outside.",
     "symbolic execution of the real AST with an asyncio lock model (rely/guarantee per build), VCs by z3/cvc5; bounded concurrent runs", "3 C14")
 CHECKS["C02"] = ("proof",
     "Deductive on the real StreamDescriptor.create_stream / file_reader / encrypt_blob_bytes / decrypt_blob_bytes / "
@@ -143,6 +145,19 @@ CHECKS["C16"] = ("proof",
     "protobuf wire format is an uninterpreted function with inverse (fakes via model_for); regex capture semantics modelled with "
     "solver-checked disjointness/unique-split obligations; attrs plumbing beyond the listed accessors is bounded only.",
     "symbolic execution of the real AST, sre-parsed real URL pattern to z3 regex, VCs by z3/cvc5; bounded real-protobuf round trips", "3 C16")
+CHECKS["C08"] = ("proof",
+    "Deductive on the real Ledger.get_root_of_merkle_tree (loop invariant against the recursive Merkle fold, branch of ANY length, any "
+    "position), maybe_verify_transaction over the real Headers.get/_read/deserialize on a symbolic header file with a recording fake "
+    "network: is_verified becomes exactly (0 <= pos < 2**len(branch) and fold == Merkle root of the stored header at THAT height); never "
+    "turned on without a header, without a branch or for height 0; the proof's own block_height is ignored; _single_batch verifies each "
+    "fresh transaction with its own proof; genuine proofs of blocks of n leaves fold to the tree root (n = 1,2,3,5,6,7; thorough 1..17, "
+    "31..33, 47, 48, 63, 64); a changed tx hash / branch element / position bit changes the root unless an explicit SHA-256 collision "
+    "exists; update_headers after a reorganisation leaves no cached transaction verified at or above the lowest replaced height. Bounded "
+    "(labelled): all 2080 (block size 1..64, index) pairs x ~50 single mutations with real SHA-256; reorg scenarios on a real chain; the "
+    "legacy claim-trie checker. Known findings C08-P1 (duplicated last node), C08-P2 (tip replaced without refusal); C08-P1a fixed.",
+    "SHA-256 uninterpreted (mutation clauses conditional on named no-collision instances); header validity is C07's subject; the network "
+    "replies are fully symbolic; completeness for block sizes 18..30, 34..46, 49..62 only bounded.",
+    "symbolic execution of the real AST with loop invariant + recursive spec, uninterpreted SHA-256, VCs by z3/cvc5; bounded real-SHA blocks", "3 C08")
 CHECKS["C10"] = ("proof",
     "Deductive on the real BlobServerProtocol.handle_request / data_received and BlobExchangeClientProtocol.data_received / _write / "
     "_download_blob (asyncio model, json uninterpreted on arbitrary text): blob bytes leave only for a verified blob, right after the one "
